@@ -97,7 +97,7 @@ def second_pass(cases, impl):
     """Cases for the resave half: load each first-save output, save again, compare with the first save."""
     out = []
     for c in cases:
-        if c.id.startswith("z"):
+        if c.meta.get("pass2"):
             continue
         saves = [parse_b(l) for l in impl.get(c.id, []) if l.startswith("b 102 ")]
         if saves and saves[0][1][0] == 1 and saves[0][2] and len(saves[0][2]) < 400000:
@@ -122,7 +122,7 @@ def oracle2(case, impl):
 def distribution(cases):
     d = {"programs": 0, "loaded_images": 0, "resave_cases": 0}
     for c in cases:
-        if c.id.startswith("z"): d["resave_cases"] += 1
+        if c.meta.get("pass2"): d["resave_cases"] += 1
         elif c.meta.get("prog") is None: d["loaded_images"] += 1
         else: d["programs"] += 1
     return d
